@@ -53,3 +53,20 @@ Proof.
   - rewrite E. assumption.
   - apply wf_resync; assumption.
 Qed.
+
+(* "touches nothing else", whole-file form: when no tag pair of B carries a name that A defines, B is written back
+   byte for byte (whatever A contains besides). *)
+Definition unshared (tg : list (string * list string)) (it : bitem_s) : Prop :=
+  match it with BPlain _ => True | BBlock o _ _ => ODict.lookup String.eqb (kof o) tg = None end.
+
+Lemma synced_unshared tg (B : list bitem_s) : Forall (unshared tg) B -> synced_s tg B = bflatten_s B.
+Proof.
+  unfold synced, bflatten. induction B as [|it B IH]; intros H; [reflexivity|].
+  inversion H as [|x xs Hit HB]; subst. cbn [flat_map]. rewrite (IH HB).
+  destruct it as [l|o b c]; [reflexivity|]. cbn [unshared] in Hit. rewrite Hit. reflexivity.
+Qed.
+
+Theorem sync_no_shared_identity a (B : list bitem_s) :
+  lines_okb (bflatten_s B) = true -> Forall (wf_bitem_s (tags_of a)) B -> Forall (unshared (tags_of a)) B ->
+  file_sync a (concat_lines (bflatten_s B)) = concat_lines (bflatten_s B).
+Proof. intros Hl Hwf Hu. rewrite (sync_bytes a B Hl Hwf), (synced_unshared _ _ Hu). reflexivity. Qed.
